@@ -137,7 +137,7 @@ def once(ctx, kind: str) -> None:
         ctx.rep.check(not exits, rule, c + "/exits", "no break/return/early continue in the update loop",
                       f"early exit `{stmt_key(exits[0].ast) if exits else ''}` in the update loop skips wells", where=w)
         # the loop itself must not be conditional on data (other than the raising guards): store dominated only by raising tests
-        nonraising = [d for d, _ in fv.controlling(st.node, within=body, skip_raising=True)]
+        nonraising = [br for _, _, br in fv.atoms_at(st.node, within=body, skip_raising=True)] + [br for _, _, br in fv.compound_conditions_at(st.node, within=body, skip_raising=True)]
         ctx.rep.check(not nonraising, rule, c + "/unconditional", "the store is conditional only on raising guards",
                       f"the store is skipped when `{stmt_key(fv.cfg.nodes[nonraising[0]].ast) if nonraising else ''}` decides so: an occurrence is not charged", where=w)
         break
